@@ -39,4 +39,8 @@ def run(ctx):
     seen = lib_guards.analyse(ctx, P, funcs=gate)
     lib_guards.presence(ctx, seen, funcs=gate, P=P)
     lib_py.always_raises(ctx, py, "util", "raise_known_file_format_errors")
+    # the Python entry points of load: an except-handler that stops raising makes load() return None for a corrupt file
+    ps = scopes.py_scope("C10")
+    lib_py.unused_params(ctx, py, mods=("trees", "tables", "util"), only=ps)
+    lib_kind.py_lints(ctx, py, mods=("trees", "tables", "util"), only=ps)
     lib_mem.c_lints(ctx, ctx.program(), scopes.lib_scope("C10"))
